@@ -292,6 +292,15 @@ func (p *Program) canon1(f *Frame, v ssa.Value, depth int) *Term {
 	case *ssa.UnOp:
 		switch v.Op {
 		case token.MUL: // load
+			if al, ok := v.X.(*ssa.Alloc); ok {
+				// a variable assigned exactly once and otherwise only read (typically a parameter
+				// spilled because a closure captures it) denotes the stored value
+				if sv := singleStore(al); sv != nil && readOnlyAfterInit(al) {
+					if _, isParam := sv.(*ssa.Parameter); isParam {
+						return rec(sv)
+					}
+				}
+			}
 			a := rec(v.X)
 			if a.Opaque && !strings.HasPrefix(a.S, "&") {
 				t := derive("*"+a.S, a)
@@ -388,6 +397,52 @@ func (p *Program) canon1(f *Frame, v ssa.Value, depth int) *Term {
 		return p.canonCall(f, v, rec)
 	}
 	return p.opaque(f, v)
+}
+
+// readOnlyAfterInit reports whether the alloc, apart from one initialising store, is only loaded,
+// possibly through closures that capture it and only load it.
+func readOnlyAfterInit(al *ssa.Alloc) bool {
+	refs := al.Referrers()
+	if refs == nil {
+		return false
+	}
+	for _, r := range *refs {
+		switch x := r.(type) {
+		case *ssa.Store:
+			if x.Addr != al {
+				return false
+			}
+		case *ssa.UnOp, *ssa.DebugRef:
+		case *ssa.MakeClosure:
+			fn, ok := x.Fn.(*ssa.Function)
+			if !ok {
+				return false
+			}
+			for i, b := range x.Bindings {
+				if b != ssa.Value(al) || i >= len(fn.FreeVars) {
+					continue
+				}
+				fv := fn.FreeVars[i]
+				if fv.Referrers() == nil {
+					continue
+				}
+				for _, fr := range *fv.Referrers() {
+					switch y := fr.(type) {
+					case *ssa.UnOp, *ssa.DebugRef:
+					case *ssa.Store:
+						if y.Addr == ssa.Value(fv) {
+							return false
+						}
+					default:
+						return false
+					}
+				}
+			}
+		default:
+			return false
+		}
+	}
+	return true
 }
 
 // onlyFieldReads reports whether, apart from its single initialising store, the alloc is only
